@@ -9,6 +9,7 @@ import AfkakProofs.Group.JoinProgress
 import AfkakProofs.Group.ProgressDrain
 import AfkakProofs.Group.FairReach
 import AfkakProofs.Group.NoCrashStep
+import AfkakProofs.Group.F12Exact
 import AfkakProps.Open.C17
 /-!
 # C17 — a started group member always progresses toward stable membership
@@ -20,18 +21,38 @@ namespace Afkak.Props.C17
 open Afkak.Group Afkak.Consts Afkak.Monitor.C17 Afkak.Monitor.C17Coord
 
 /-- no event delivers a non-Kafka error at a point where it escapes `_join_and_sync`
-    (coordinator look-up, metadata load, leader partition load) -/
+    (coordinator look-up, metadata load, leader partition load) — the COARSE, event-only form of the
+    excluded situation; the exact one is `f12Occurs` (below), which this implies (`C17_no_escape_no_f12`). -/
 def noNonKafkaEscape (evs : List Ev) : Bool := evs.all fun e => !nonKafkaEscape e
+
+/-- the coarse predicate implies the exact one -/
+theorem C17_no_escape_no_f12 (cfg : Cfg) (evs : List Ev) (h : noNonKafkaEscape evs = true) : f12Occurs cfg evs = false :=
+  f12From_of_noEscape cfg evs init (fun e he => by
+    have := List.all_eq_true.mp h e he
+    simpa using this)
 
 /-- Never idle (the monitor that is run on the implementation, proved of every model trace):
     after every event, a started and not stopping member has a join in flight, or is stable with the
     heartbeat timer running, or has a rejoin / coordinator-retry timer pending, or `start`'s Deferred
-    has fired — provided no NON-Kafka error escaped the join (finding F12: the code swallows that). -/
-theorem C17_never_idle_partial (cfg : Cfg) (evs : List Ev) (h : noNonKafkaEscape evs = true) :
-    neverIdle (toMSteps (run cfg evs)) = true := by
-  refine neverIdle_run cfg evs (fun e he => ?_)
-  have := List.all_eq_true.mp h e he
-  simpa using this
+    has fired — on EVERY history in which the known finding's situation does not occur
+    (`f12Occurs cfg evs`, a decidable predicate of the event list: a member that is not stopping
+    PROCESSES a NON-Kafka error on the coordinator look-up, the metadata load or the leader's partition
+    load — finding `F12-nonkafka-error-escaping-join-swallowed`: the code only logs that).  The same
+    error delivered when the member is not waiting for that reply, or to a stopping member, is not
+    excluded.  The gap to `Open.C17_never_idle` is exactly the finding. -/
+theorem C17_never_idle_partial (cfg : Cfg) (evs : List Ev) (h : f12Occurs cfg evs = false) :
+    neverIdle (toMSteps (run cfg evs)) = true :=
+  neverIdle_run_exact cfg evs h
+
+/-- Every non-Kafka error surfaces on `start`'s Deferred — BOTH monitors of the full-strength
+    statement — on every history in which the known finding's situation does not occur: errors on
+    join / sync / heartbeat replies and from consumers surface always (`fatalSurfaces`,
+    unconditionally: `C17_fatal_surfaces_on_replies`), and without the finding's situation there is no
+    processed non-Kafka error at an escape site for `escapeSurfaces` to ask about.  The gap to
+    `Open.C17_fatal_surfaces` is exactly the finding. -/
+theorem C17_fatal_surfaces_partial (cfg : Cfg) (evs : List Ev) (h : f12Occurs cfg evs = false) :
+    fatalSurfaces (toMSteps (run cfg evs)) = true ∧ escapeSurfaces (toMSteps (run cfg evs)) = true :=
+  ⟨fatalSurfaces_run cfg evs, escapeSurfaces_run_exact cfg evs h⟩
 
 /-- The excluded situation is real: a non-Kafka failure of the coordinator look-up leaves the
     member idle for ever — the full-strength statement is false of the code. -/
@@ -173,21 +194,21 @@ theorem C17_rejoins_bounded_partial (cfg : Cfg) (evs : List Ev) (h : eligible cf
       exact ⟨t, ht, by simpa using hk⟩
   exact progress_drain_final cfg evs hb h2 h3 h4
 
-/-- … hence for every history in which no non-Kafka error escaped the join (the known finding F12)
-    the full-strength conclusion holds: started, not stopping, no `stop()` waiting ⇒ a failure-free
+/-- … hence for every history in which the known finding's situation does not occur (`f12Occurs`: a
+    member that is not stopping processes a non-Kafka error at an escape site) the full-strength
+    conclusion holds — the `_partial` of `Open.C17_rejoins_bounded` whose only extra hypothesis is the
+    finding: started, not stopping, no `stop()` waiting ⇒ a failure-free
     continuation of at most `6 + #consumers` events makes the member stable. -/
-theorem C17_rejoins_bounded_no_escape (cfg : Cfg) (evs : List Ev) (hne : noNonKafkaEscape evs = true)
+theorem C17_rejoins_bounded_no_escape (cfg : Cfg) (evs : List Ev) (hne : f12Occurs cfg evs = false)
     (h2 : (final cfg evs).started = true) (h3 : (final cfg evs).stopping = false) (h4 : (final cfg evs).stopDraining = false) :
     ∃ tail : List Ev, tail.all okEv = true ∧ tail.length ≤ 6 + (final cfg evs).cons.length ∧
       (finalFrom cfg (final cfg evs) tail).rejoinNeeded = false := by
-  have hb : Busy (final cfg evs) := final_busy cfg evs (fun e he => by
-    have := List.all_eq_true.mp hne e he
-    simpa using this)
+  have hb : Busy (final cfg evs) := final_busy_exact cfg evs hne
   obtain ⟨tail, a, b, _, d⟩ := progress_drain_final cfg evs hb h2 h3 h4
   exact ⟨tail, a, b, by unfold final at d; rwa [finalFrom_append] at d⟩
 
 /-- Bounded rejoin as a ∀-statement under fairness.  Take ANY history in which no non-Kafka error
-    escaped the join (finding F12) and after which the member is started, not stopping and no
+    was processed at an escape site by a member that was not stopping (`f12Occurs`, finding F12) and after which the member is started, not stopping and no
     `stop()` waits for consumers — including one in the middle of `on_join_prepare`.  Then for EVERY
     failure-free continuation (`okEvF`: time passes, timers fire, requests are answered successfully,
     shutdowns complete, heartbeats are acknowledged — in any order, with any reply contents,
@@ -195,13 +216,11 @@ theorem C17_rejoins_bounded_no_escape (cfg : Cfg) (evs : List Ev) (hne : noNonKa
     least `μ` OWED moves (`owedMove`: the reply to the outstanding request, the completion of an
     awaited shutdown, the firing of the due rejoin / retry timer of a member with no join in flight),
     the member is a stable member at the end; and `μ ≤ 7 + #consumers`. -/
-theorem C17_rejoins_fair (cfg : Cfg) (evs : List Ev) (hne : noNonKafkaEscape evs = true)
+theorem C17_rejoins_fair (cfg : Cfg) (evs : List Ev) (hne : f12Occurs cfg evs = false)
     (h2 : (final cfg evs).started = true) (h3 : (final cfg evs).stopping = false) (h4 : (final cfg evs).stopDraining = false)
     (tail : List Ev) (ha : tail.all okEvF = true) (hf : mu (final cfg evs) ≤ owedCount cfg (final cfg evs) tail) :
     (finalFrom cfg (final cfg evs) tail).rejoinNeeded = false ∧ mu (final cfg evs) ≤ 7 + (final cfg evs).cons.length := by
-  have hb : Busy (final cfg evs) := final_busy cfg evs (fun e he => by
-    have := List.all_eq_true.mp hne e he
-    simpa using this)
+  have hb : Busy (final cfg evs) := final_busy_exact cfg evs hne
   have he := elig_final cfg evs hb h2 h3 h4
   exact ⟨fair_reaches cfg _ he tail ha hf, mu_le _ he⟩
 
@@ -232,6 +251,15 @@ def exFaults : List Ev :=
   [.start, .coordDone (.err .coordinatorNotAvailable), .advance 1, .fire 0 none, .coordDone .ok, .metaDone (.err .kafkaUnavailable),
    .advance 10, .fire 1 none, .coordDone .ok, .metaDone .ok, .joinDone (.err .unknownMemberId)]
 example : noNonKafkaEscape exFaults = true := by decide
+example : f12Occurs exCfg exFaults = false := by decide +kernel
+/-- the exact predicate admits histories the coarse one rejects: a non-Kafka "reply" nobody waits for
+    (not processed) and one that reaches a member that is already stopping -/
+example : noNonKafkaEscape (exFaults ++ [.metaDone (.err .nonKafka)]) = false ∧
+    f12Occurs exCfg (exFaults ++ [.metaDone (.err .nonKafka)]) = false := by decide +kernel
+example : f12Occurs exCfg [.start, .coordDone .ok, .metaDone .ok, .joinDone (.ok 1 1 false 0), .syncDone (.ok [(0, [0])]),
+    .consumerErr 0 .rebalanceInProgress, .advance 1, .fire 1 none, .stop, .coordDone (.err .nonKafka)] = false := by decide +kernel
+/-- … and it is true of the counterexample's history -/
+example : f12Occurs exCfg [.start, .coordDone (.err .nonKafka)] = true := by decide +kernel
 example : ((final exCfg exFaults).timers.map fun t => (t.id, t.kind)) = [(2, .rejoin)] := by decide +kernel
 
 example : eligible exCfg exFaults = true := by decide +kernel
@@ -242,6 +270,7 @@ def exDrain : List Ev :=
 example : (final exCfg exDrain).jpc = .prepare := by decide +kernel
 example : eligible exCfg exDrain = true := by decide +kernel
 example : noNonKafkaEscape exDrain = true := by decide
+example : f12Occurs exCfg exDrain = false := by decide +kernel
 example : exFairTail.all okEvF = true ∧ mu (final exCfg exDrain) = 5 ∧
     mu (final exCfg exDrain) ≤ owedCount exCfg (final exCfg exDrain) exFairTail ∧
     (final exCfg (exDrain ++ exFairTail)).rejoinNeeded = false := by decide +kernel
@@ -251,6 +280,8 @@ end Afkak.Props.C17
 
 /- OBLIGATIONS
 C17_never_idle_partial
+C17_fatal_surfaces_partial
+C17_no_escape_no_f12
 C17_never_idle_counterexample
 C17_fatal_surfaces_counterexample
 C17_retriable_rejoins
